@@ -27,8 +27,10 @@ func init() {
 			"IP set IDs are distinct, contain no ':' and survive NameForMainIPSet without truncation. (fields) PolicyChainName, ProfileChainName and PolicyGroup.UniqueID read, in their static call closure, every exported field of " +
 			"every identity struct they are handed (PolicyID, ProfileID, PolicyGroup and its member PolicyIDs); PolicyID.KindShortName maps kinds to pairwise distinct constants. (through) every return of EndpointChainName, " +
 			"PolicyChainName, ProfileChainName, PolicyGroup.ChainName and NameForMainIPSet is a result of GetLengthLimitedID / combineAndTrunc (possibly via a helper) or constant prefix + hash cut to a constant length; " +
-			"combineAndTrunc returns the untruncated string only when it fits.",
-		NotDecided: "Hash collisions (SHA-256/SHA3 truncated); that policy IDs / interface names are themselves unique; injectivity of the hash input encodings (only that every identity field is read); dynamic IP set IDs; names built outside felix/rules (e.g. ARP chains in the endpoint manager).",
+			"combineAndTrunc returns the untruncated string only when it fits. " +
+			"(legal) in felix/nftables the result of every IPVersionConfig.NameForMainIPSet/NameForTempIPSet call, and the name parameter of every …IPSet/…IPPortSet(name) method of the package's generictables.MatchCriteria implementation, is used only as the argument of LegalizeSetName: creation, removal, member updates, lookups and rule references all address a set by the one legalised name. " +
+			"(order) in every felix/rules function that feeds a hasher and reads a slice field of an identity struct (today PolicyGroup.UniqueID / PolicyGroup.Policies) no sort/reverse/shuffle call — in the function, its closures or the in-package helpers it calls (2 levels) — takes data derived from that field: an ordered identity is hashed in stored order.",
+		NotDecided: "Hash collisions (SHA-256/SHA3 truncated); that policy IDs / interface names are themselves unique; injectivity of the hash input encodings (only that every identity field is read); dynamic IP set IDs; names built outside felix/rules (e.g. ARP chains in the endpoint manager); order loss by means other than a sort/reverse/shuffle call (hand-written sorts, detours through sets/maps); nftables map (vmap) names, which are static and ':'-free.",
 		Assumptions: []string{
 			"go/types + go/ssa (x/tools v0.50.0) model of the current source, CGO_ENABLED=0 build",
 			"dynamic prefixes are recognised by value shape: constants of felix/rules starting with ChainNamePrefix and ending in '-'",
@@ -84,6 +86,14 @@ func init() {
 				Old: "EncodeToString(hashBytes)[:MaxPolicyGroupUIDLength]", New: "EncodeToString(hashBytes)", Expect: "C37.through/PolicyGroup.ChainName"},
 			{Name: "IP set names one over the limit kept untruncated", File: "felix/ipsets/ipset_defs.go",
 				Old: "\tif len(combined) > maxLength {", New: "\tif len(combined) > maxLength+1 {", Expect: "C37.through/combineAndTrunc"},
+			{Name: "nftables RemoveIPSet derives the set name without legalising it", File: "felix/nftables/ipsets.go",
+				Old: "\tsetName := s.nameForMainIPSet(setID)\n\n\tdelete(s.setNameToAllMetadata, setName)", New: "\tsetName := s.IPVersionConfig.NameForMainIPSet(setID)\n\n\tdelete(s.setNameToAllMetadata, setName)", Expect: "C37.legal/derive/IPSets.RemoveIPSet"},
+			{Name: "nftables GetTypeOf looks the set up under the iptables-style name", File: "felix/nftables/ipsets.go",
+				Old: "\tsetName := s.nameForMainIPSet(setID)\n\tsetMeta, ok := s.setNameToAllMetadata[setName]\n\tif !ok {\n\t\treturn \"\", fmt.Errorf", New: "\tsetName := s.IPVersionConfig.NameForMainIPSet(setID)\n\tsetMeta, ok := s.setNameToAllMetadata[setName]\n\tif !ok {\n\t\treturn \"\", fmt.Errorf", Expect: "C37.legal/derive/IPSets.GetTypeOf"},
+			{Name: "nftables rule references a destination IP set by its unlegalised name", File: "felix/nftables/match_builder.go",
+				Old: "fmt.Sprintf(\"<IPV> daddr @%s\", LegalizeSetName(name))", New: "fmt.Sprintf(\"<IPV> daddr @%s\", name)", Expect: "C37.legal/match/nftMatch.DestIPSet"},
+			{Name: "policy-group UID hashes its members in sorted order (via an in-package sorting helper)", File: "felix/rules/endpoints.go",
+				Old: "\tfor _, policy := range g.Policies {\n\t\twrite(policy.String())\n\t}\n", New: "\tids := make([]string, 0, len(g.Policies))\n\tfor _, policy := range g.Policies {\n\t\tids = append(ids, policy.String())\n\t}\n\t(*DefaultRuleRenderer)(nil).sortAndDivideEndpointNamesToPrefixTree(ids)\n\tfor _, id := range ids {\n\t\twrite(id)\n\t}\n", Expect: "C37.order/PolicyGroup.UniqueID/PolicyGroup.Policies"},
 			{Name: "static IP set ID truncated by NameForMainIPSet", File: "felix/rules/rule_defs.go",
 				Old: "IPSetIDNATOutgoingMasqPools = \"masq-ipam-pools\"", New: "IPSetIDNATOutgoingMasqPools = \"masq-ipam-pools-for-nat-outgoing\"", Expect: "C37.ipsets/fits/IPSetIDNATOutgoingMasqPools"},
 		},
@@ -114,7 +124,7 @@ func c37IntConst(c *Ctx, p *Prog, pkg, name string) int64 {
 }
 
 func runC37(c *Ctx) {
-	p := c.Load(c10RulesPkg, c37HashPkg, c37IPSets, c37TypesPkg)
+	p := c.Load(c10RulesPkg, c37HashPkg, c37IPSets, c37TypesPkg, c37NFTables)
 	c.Rule("C37.prefixes", "E-CONST", "dynamic chain-name prefixes: distinct, pairwise prefix-free, no static chain name inside their namespace, room for marker+hash, policy-group prefixes of equal length", 60)
 	c.Rule("C37.static", "E-CONST", "static chain names and dispatch child-chain names fit iptables.MaxChainNameLength", 40)
 	c.Rule("C37.sanitise", "E-FLOW", "chain-name sinks (Jump/GoTo target, Chain.Name) derive only from constants and the length-limiting name functions; length arguments are the back-end limit", 30)
@@ -122,6 +132,9 @@ func runC37(c *Ctx) {
 	c.Rule("C37.ipsets", "E-CONST", "static IP set IDs distinct, ':'-free, not truncated by NameForMainIPSet", 9)
 	c.Rule("C37.fields", "E-FIELDS", "every name-deriving function reads every exported field of the identity structs it is given (receiver / parameters / slice elements), so two identities differing in any field get different hash inputs; KindShortName maps kinds to pairwise distinct constants", 11)
 	c.Rule("C37.through", "E-FLOW", "every return of a chain/set name function is the result of the length-limiting function (GetLengthLimitedID / combineAndTrunc, possibly via a helper) or constant prefix + fixed-length hash: no path hands the identity to the name verbatim", 6)
+
+	c.Rule("C37.legal", "E-PAIR/E-FLOW", "felix/nftables: one set identity, one nftables name — every name derived from a set ID (IPVersionConfig.NameFor…IPSet) and every IP-set name a match method is handed reaches its use only through LegalizeSetName, so creation, removal, lookup and rule references all see the same name", 9)
+	c.Rule("C37.order", "E-FLOW", "identity hashes of ordered collections keep the order: in a felix/rules function that feeds a hasher, no sort/reverse/shuffle is applied to the identity's slice field or to anything derived from its elements", 1)
 
 	iptMax := c37IntConst(c, p, c37IPTables, "MaxChainNameLength")
 	nftMax := c37IntConst(c, p, c37NFTables, "MaxChainNameLength")
@@ -136,6 +149,8 @@ func runC37(c *Ctx) {
 	c37IPSetIDs(c, p)
 	c37Fields(c, p)
 	c37Through(c, p, iptMax)
+	c37Legal(c, p)
+	c37Order(c, p)
 }
 
 // ---------------------------------------------------------------- prefixes --
@@ -1325,4 +1340,452 @@ func c37Through(c *Ctx, p *Prog, iptMax int64) {
 	}
 	c.Check(len(bad) == 0, "C37.through/combineAndTrunc", p.Pos(cfn.Pos()), "untruncated result only when it fits; truncated result cut to maxLength", "combineAndTrunc: "+strings.Join(bad, "; ")+": IP set names can exceed the kernel limit")
 	_ = iptMax
+}
+
+// ------------------------------------------------------------------- legal --
+
+// c37OnlyInto: every use of v (through phi / conversions) is as the first
+// argument of a call to want.  Returns a description of the first other use.
+func c37OnlyInto(p *Prog, v ssa.Value, want *types.Func) string {
+	seen := map[ssa.Value]bool{}
+	var walk func(v ssa.Value) string
+	walk = func(v ssa.Value) string {
+		if seen[v] || v.Referrers() == nil {
+			return ""
+		}
+		seen[v] = true
+		for _, r := range *v.Referrers() {
+			switch x := r.(type) {
+			case *ssa.DebugRef:
+			case *ssa.Phi:
+				if msg := walk(x); msg != "" {
+					return msg
+				}
+			case *ssa.ChangeType:
+				if msg := walk(x); msg != "" {
+					return msg
+				}
+			case *ssa.Convert:
+				if msg := walk(x); msg != "" {
+					return msg
+				}
+			case ssa.CallInstruction:
+				cc := x.Common()
+				if f := calleeOf(cc); f == want && !cc.IsInvoke() && len(cc.Args) > 0 && cc.Args[0] == v {
+					continue
+				}
+				return fmt.Sprintf("it is passed to %s at %s", c37CallName(cc), p.Pos(r.Pos()))
+			case *ssa.Return:
+				return fmt.Sprintf("it is returned at %s", p.Pos(r.Pos()))
+			case *ssa.MapUpdate, *ssa.Lookup:
+				return fmt.Sprintf("it is used as a map key/value at %s", p.Pos(r.Pos()))
+			default:
+				return fmt.Sprintf("it is used by `%s` at %s", r.String(), p.Pos(r.Pos()))
+			}
+		}
+		return ""
+	}
+	return walk(v)
+}
+
+func c37CallName(cc *ssa.CallCommon) string {
+	if f := calleeOf(cc); f != nil {
+		return f.Name()
+	}
+	if b, ok := cc.Value.(*ssa.Builtin); ok {
+		return "the builtin " + b.Name()
+	}
+	return "a function value"
+}
+
+// c37Legal: nftables set names may not contain ':', so felix/nftables maps
+// every name through LegalizeSetName.  The kernel set, the desired-state maps of
+// IPSets and the `@name` references in rules are only the same object if every
+// one of them uses the legalised name.  (derive) inside felix/nftables the result
+// of IPVersionConfig.NameForMainIPSet/NameForTempIPSet goes nowhere but into
+// LegalizeSetName; (match) every method of the package's MatchCriteria
+// implementation that the generictables API declares as taking an IP-set name
+// (…IPSet / …IPPortSet(name string)) hands that name to nothing but
+// LegalizeSetName.
+func c37Legal(c *Ctx, p *Prog) {
+	legal, _ := p.LookupObj(c37NFTables, "LegalizeSetName").(*types.Func)
+	if legal == nil {
+		c.Lost("felix/nftables.LegalizeSetName")
+	}
+	derive := map[*types.Func]bool{}
+	for _, n := range []string{"IPVersionConfig.NameForMainIPSet", "IPVersionConfig.NameForTempIPSet"} {
+		f, _ := p.LookupObj(c37IPSets, n).(*types.Func)
+		if f == nil {
+			c.Lost("felix/ipsets.%s", n)
+		}
+		derive[f] = true
+	}
+	sp := p.SSAPkg(c37NFTables)
+	if sp == nil {
+		c.Lost("ssa package %s", c37NFTables)
+	}
+	var fns []*ssa.Function
+	for _, f := range p.AllFuncs() {
+		if f.Pkg == sp && f.Blocks != nil {
+			fns = append(fns, f)
+		}
+	}
+	sort.Slice(fns, func(i, j int) bool { return fnName(fns[i]) < fnName(fns[j]) })
+	nDerive := 0
+	for _, f := range fns {
+		sites := callsIn(f, false, func(fn *types.Func) bool { return derive[fn] })
+		if len(sites) == 0 {
+			continue
+		}
+		var bad []string
+		for _, cs := range sites {
+			v, ok := cs.Instr.(ssa.Value)
+			if !ok {
+				bad = append(bad, fmt.Sprintf("%s is called by go/defer at %s", cs.Callee.Name(), p.Pos(cs.Instr.Pos())))
+				continue
+			}
+			if msg := c37OnlyInto(p, v, legal); msg != "" {
+				bad = append(bad, fmt.Sprintf("the result of %s at %s does not go through LegalizeSetName: %s", cs.Callee.Name(), p.Pos(cs.Instr.Pos()), msg))
+			}
+		}
+		nDerive++
+		c.Check(len(bad) == 0, "C37.legal/derive/"+fnName(topFn(f)), p.Pos(f.Pos()), fmt.Sprintf("%d name derivation(s) flow only into LegalizeSetName", len(sites)),
+			fnName(f)+": "+strings.Join(bad, "; ")+" — the other entry points key the same set by the legalised name (':' -> '-'), so for every calculated set ID (they all contain ':') this one addresses a set that does not exist: removals/lookups silently miss and the real set leaks")
+	}
+	if nDerive == 0 {
+		c.Lost("felix/nftables derives no set name from a set ID (NameForMainIPSet/NameForTempIPSet not called)")
+	}
+
+	// match methods taking an IP set name
+	iface, _ := p.LookupExt(c10GTPkg, "MatchCriteria").(*types.TypeName)
+	if iface == nil {
+		iface, _ = p.LookupObj(c10GTPkg, "MatchCriteria").(*types.TypeName)
+	}
+	if iface == nil {
+		c.Lost("generictables.MatchCriteria")
+	}
+	it, ok := iface.Type().Underlying().(*types.Interface)
+	if !ok {
+		c.Lost("generictables.MatchCriteria is not an interface")
+	}
+	var setMethods []string
+	for i := 0; i < it.NumMethods(); i++ {
+		m := it.Method(i)
+		sig := m.Type().(*types.Signature)
+		if !(strings.HasSuffix(m.Name(), "IPSet") || strings.HasSuffix(m.Name(), "IPPortSet")) || sig.Params().Len() != 1 {
+			continue
+		}
+		if b, ok := sig.Params().At(0).Type().Underlying().(*types.Basic); !ok || b.Kind() != types.String {
+			continue
+		}
+		setMethods = append(setMethods, m.Name())
+	}
+	sort.Strings(setMethods)
+	if len(setMethods) < 8 {
+		c.Lost("generictables.MatchCriteria: expected ≥8 …IPSet/…IPPortSet(name string) methods, found %d", len(setMethods))
+	}
+	pk := p.Pkg(c37NFTables)
+	if pk == nil {
+		c.Lost("package %s", c37NFTables)
+	}
+	nImpl := 0
+	for _, tn := range pk.Types.Scope().Names() {
+		named, ok := pk.Types.Scope().Lookup(tn).(*types.TypeName)
+		if !ok || named.IsAlias() {
+			continue
+		}
+		if _, isIface := named.Type().Underlying().(*types.Interface); isIface {
+			continue
+		}
+		if !types.Implements(named.Type(), it) && !types.Implements(types.NewPointer(named.Type()), it) {
+			continue
+		}
+		nImpl++
+		for _, mn := range setMethods {
+			fn := p.Func(c37NFTables, tn+"."+mn)
+			if fn == nil || len(fn.Params) != 2 {
+				c.Lost("felix/nftables.%s.%s", tn, mn)
+			}
+			msg := c37OnlyInto(p, fn.Params[1], legal)
+			c.Check(msg == "", "C37.legal/match/"+tn+"."+mn, p.Pos(fn.Pos()), "the set name reaches the rule only through LegalizeSetName",
+				fmt.Sprintf("%s.%s uses the IP set name it is given without LegalizeSetName (%s): rules reference '@cali40s:…' while the set exists as 'cali40s-…'", tn, mn, msg))
+		}
+	}
+	if nImpl == 0 {
+		c.Lost("no MatchCriteria implementation in felix/nftables")
+	}
+}
+
+// ------------------------------------------------------------------- order --
+
+// c37Reorders: f permutes the slice it is handed (argument 0).
+func c37Reorders(f *types.Func) bool {
+	if f == nil || f.Pkg() == nil {
+		return false
+	}
+	switch f.Pkg().Path() {
+	case "sort":
+		switch f.Name() {
+		case "Sort", "Stable", "Slice", "SliceStable", "Strings", "Ints", "Float64s":
+			return true
+		}
+	case "slices":
+		switch f.Name() {
+		case "Sort", "SortFunc", "SortStableFunc", "Reverse":
+			return true
+		}
+	case "math/rand", "math/rand/v2":
+		return f.Name() == "Shuffle"
+	}
+	return false
+}
+
+type c37Dep struct {
+	p     *Prog
+	funcs map[*ssa.Function]bool // the inspected functions (F, its closures, in-package callees)
+	top   *ssa.Function
+}
+
+// dependsOn: the backward data-flow slice of v (operands; what is stored into the
+// locals, slices and arrays on the way; call-site arguments for parameters of
+// inspected callees; bindings of closure variables) contains a read of field
+// target or the value target itself.
+func (d *c37Dep) dependsOn(v ssa.Value, isTarget func(ssa.Value) bool) bool {
+	seen := map[ssa.Value]bool{}
+	work := []ssa.Value{v}
+	push := func(x ssa.Value) {
+		if x != nil && !seen[x] {
+			seen[x] = true
+			work = append(work, x)
+		}
+	}
+	seen[v] = true
+	for len(work) > 0 && len(seen) < 5000 {
+		x := work[len(work)-1]
+		work = work[:len(work)-1]
+		if isTarget(x) {
+			return true
+		}
+		// what is written into x (locals, backing arrays, make'd slices)
+		switch x.(type) {
+		case *ssa.Alloc, *ssa.MakeSlice, *ssa.Slice, *ssa.Phi, *ssa.Call:
+			if refs := x.Referrers(); refs != nil {
+				for _, r := range *refs {
+					switch y := r.(type) {
+					case *ssa.Store:
+						if y.Addr == x {
+							push(y.Val)
+						}
+					case *ssa.IndexAddr:
+						if y.X == x && y.Referrers() != nil {
+							for _, rr := range *y.Referrers() {
+								if st, ok := rr.(*ssa.Store); ok && st.Addr == ssa.Value(y) {
+									push(st.Val)
+								}
+							}
+						}
+					case *ssa.Call:
+						if cc, ok := isBuiltinCall(y, "copy"); ok && len(cc.Args) == 2 && cc.Args[0] == x {
+							push(cc.Args[1])
+						}
+					}
+				}
+			}
+		}
+		switch y := x.(type) {
+		case *ssa.Parameter:
+			fn := y.Parent()
+			if fn == d.top {
+				continue
+			}
+			idx := c10ParamIndex(fn, y)
+			for g := range d.funcs {
+				allInstrs(g, false, func(_ *ssa.Function, in ssa.Instruction) {
+					ci, ok := in.(ssa.CallInstruction)
+					if !ok || calleeFn(ci.Common()) != fn || idx < 0 || idx >= len(ci.Common().Args) {
+						return
+					}
+					push(ci.Common().Args[idx])
+				})
+			}
+		case *ssa.FreeVar:
+			fn := y.Parent()
+			par := fn.Parent()
+			if par == nil {
+				continue
+			}
+			allInstrs(par, false, func(_ *ssa.Function, in ssa.Instruction) {
+				mc, ok := in.(*ssa.MakeClosure)
+				if !ok || mc.Fn != ssa.Value(fn) {
+					return
+				}
+				for i, fv := range fn.FreeVars {
+					if fv == y && i < len(mc.Bindings) {
+						push(mc.Bindings[i])
+					}
+				}
+			})
+		case ssa.Instruction:
+			for _, op := range y.Operands(nil) {
+				if op != nil {
+					push(*op)
+				}
+			}
+		}
+	}
+	return false
+}
+
+// c37Order: a PolicyGroup is an ordered sequence (enforcement order), and its
+// UID — hence its chain name — must distinguish [A,B] from [B,A]: both render
+// different chains.  The hash can only do that if the elements reach it in
+// stored order.  Generalised: in every felix/rules function that feeds a hasher
+// (writes to a hash.Hash-like value or calls into libcalico-go/lib/hash) and
+// reads a slice-typed field of an identity struct declared in felix/rules or
+// felix/types, nothing derived from that field is handed to a permuting
+// function (sort.*, slices.Sort*/Reverse, rand.Shuffle) — in the function, its
+// closures, or the in-package helpers it calls.
+func c37Order(c *Ctx, p *Prog) {
+	sp := p.SSAPkg(c10RulesPkg)
+	if sp == nil {
+		c.Lost("ssa package %s", c10RulesPkg)
+	}
+	inPkgs := func(f *ssa.Function) bool {
+		if f == nil || f.Blocks == nil || f.Pkg == nil {
+			return false
+		}
+		pp := f.Pkg.Pkg.Path()
+		return pp == calicoPrefix+c10RulesPkg || pp == calicoPrefix+c37TypesPkg
+	}
+	feedsHasher := func(f *ssa.Function) bool {
+		found := false
+		allInstrs(f, true, func(_ *ssa.Function, in ssa.Instruction) {
+			ci, ok := in.(ssa.CallInstruction)
+			if !ok {
+				return
+			}
+			cc := ci.Common()
+			if cc.IsInvoke() && cc.Method.Name() == "Write" {
+				if it, ok := cc.Value.Type().Underlying().(*types.Interface); ok {
+					for i := 0; i < it.NumMethods(); i++ {
+						if strings.HasPrefix(it.Method(i).Name(), "Sum") {
+							found = true
+						}
+					}
+				}
+				return
+			}
+			if f := calleeOf(cc); f != nil && f.Pkg() != nil && f.Pkg().Path() == calicoPrefix+c37HashPkg {
+				found = true
+			}
+		})
+		return found
+	}
+	var tops []*ssa.Function
+	for _, f := range p.AllFuncs() {
+		if f.Pkg == sp && f.Parent() == nil && f.Blocks != nil && f.Synthetic == "" {
+			tops = append(tops, f)
+		}
+	}
+	sort.Slice(tops, func(i, j int) bool { return fnName(tops[i]) < fnName(tops[j]) })
+	n := 0
+	for _, top := range tops {
+		if !feedsHasher(top) {
+			continue
+		}
+		// identity slices read by top (and its closures)
+		fields := map[*types.Var]string{}
+		allInstrs(top, true, func(_ *ssa.Function, in ssa.Instruction) {
+			var fv *types.Var
+			var owner types.Type
+			switch x := in.(type) {
+			case *ssa.FieldAddr:
+				fv, owner = fieldVar(x), derefType(x.X.Type())
+			case *ssa.Field:
+				fv, owner = fieldVar(x), x.X.Type()
+			}
+			if fv == nil {
+				return
+			}
+			if _, isSlice := fv.Type().Underlying().(*types.Slice); !isSlice {
+				return
+			}
+			nt, ok := types.Unalias(owner).(*types.Named)
+			if !ok || nt.Obj().Pkg() == nil {
+				return
+			}
+			if pp := nt.Obj().Pkg().Path(); pp != calicoPrefix+c10RulesPkg && pp != calicoPrefix+c37TypesPkg {
+				return
+			}
+			fields[fv] = nt.Obj().Name() + "." + fv.Name()
+		})
+		if len(fields) == 0 {
+			continue
+		}
+		// inspected functions: top, closures, in-package static callees (2 levels)
+		d := &c37Dep{p: p, funcs: map[*ssa.Function]bool{}, top: top}
+		var add func(f *ssa.Function, depth int)
+		add = func(f *ssa.Function, depth int) {
+			if d.funcs[f] {
+				return
+			}
+			d.funcs[f] = true
+			for _, a := range f.AnonFuncs {
+				add(a, depth)
+			}
+			if depth == 0 {
+				return
+			}
+			allInstrs(f, false, func(_ *ssa.Function, in ssa.Instruction) {
+				if ci, ok := in.(ssa.CallInstruction); ok {
+					if g := calleeFn(ci.Common()); inPkgs(g) {
+						add(g, depth-1)
+					}
+				}
+			})
+		}
+		add(top, 2)
+		type site struct {
+			fn   *ssa.Function
+			call ssa.CallInstruction
+		}
+		var sorts []site
+		for g := range d.funcs {
+			allInstrs(g, false, func(_ *ssa.Function, in ssa.Instruction) {
+				if ci, ok := in.(ssa.CallInstruction); ok && c37Reorders(calleeOf(ci.Common())) && len(ci.Common().Args) > 0 {
+					sorts = append(sorts, site{g, ci})
+				}
+			})
+		}
+		sort.Slice(sorts, func(i, j int) bool { return sorts[i].call.Pos() < sorts[j].call.Pos() })
+		var fvs []*types.Var
+		for fv := range fields {
+			fvs = append(fvs, fv)
+		}
+		sort.Slice(fvs, func(i, j int) bool { return fields[fvs[i]] < fields[fvs[j]] })
+		for _, fv := range fvs {
+			n++
+			var bad []string
+			for _, s := range sorts {
+				isTarget := func(v ssa.Value) bool {
+					switch x := v.(type) {
+					case *ssa.FieldAddr:
+						return fieldVar(x) == fv
+					case *ssa.Field:
+						return fieldVar(x) == fv
+					}
+					return false
+				}
+				if d.dependsOn(s.call.Common().Args[0], isTarget) {
+					bad = append(bad, fmt.Sprintf("%s.%s at %s (in %s) permutes data derived from it", calleeOf(s.call.Common()).Pkg().Name(), calleeOf(s.call.Common()).Name(), p.Pos(s.call.Pos()), fnName(s.fn)))
+				}
+			}
+			c.Check(len(bad) == 0, "C37.order/"+fnName(top)+"/"+fields[fv], p.Pos(top.Pos()),
+				fmt.Sprintf("%s reaches the hasher in stored order: none of the %d permuting call(s) in %d inspected function(s) touches data derived from it", fields[fv], len(sorts), len(d.funcs)),
+				fmt.Sprintf("%s feeds a hash from the ordered list %s, but %s: two identities that hold the same members in a different order (which render different chains) get the same hash and therefore the same name", fnName(top), fields[fv], strings.Join(bad, "; ")))
+		}
+	}
+	if n == 0 {
+		c.Lost("no felix/rules function feeds a hasher from a slice field of an identity struct (PolicyGroup.UniqueID / PolicyGroup.Policies expected)")
+	}
 }
